@@ -3,8 +3,10 @@
 # exit 0: property held on everything explored; 1: VIOLATION line printed; 2: harness error (no verdict)
 set -uo pipefail
 ID=$1; TIER=${2:-quick}
-if ! /verif/scripts/build.sh >/tmp/verif-build.$$.log 2>&1; then
-  echo "HARNESS-ERROR: build failed" >&2; cat /tmp/verif-build.$$.log >&2; rm -f /tmp/verif-build.$$.log; exit 2
+. "$(dirname "$0")/env.sh"
+LOG=$(mktemp)
+if ! $ROOT/scripts/build.sh >$LOG 2>&1; then
+  echo "HARNESS-ERROR: build failed" >&2; cat $LOG >&2; rm -f $LOG; exit 2
 fi
-rm -f /tmp/verif-build.$$.log
-exec /verif/bin/vpx check "$ID" --tier "$TIER"
+rm -f $LOG
+exec $ROOT/bin/vpx check "$ID" --tier "$TIER"
